@@ -18,19 +18,21 @@ for isa, W in ISAS:
         HARNESSES.append(KH("O17.1/%s_%s" % (k, isa), "c17_o1_%s_%s" % (k, isa), "%s kernel (%s): no out-of-bounds access for any length 1..%d" % (k, isa, small), src="simd.rs",
                             functions=[("simd.rs", r"\w*%s\w*" % isa)],
                             bounds="len symbolic in 1..%d (single-chunk loop and every tail length); each input slice ends exactly at the end of its heap object" % small,
-                            tier=("quick" if k in ("dot", "dotnorms") else "thorough"), timeout=900))
+                            tier=("quick" if k in ("dot", "dotnorms") else "thorough"), timeout=900, replay="solver-only"))
         HARNESSES.append(KH("O17.1/%s_%s_full" % (k, isa), "c17_o1_%s_%s_full" % (k, isa), "%s kernel (%s): no out-of-bounds access for any length 1..%d (4x-unrolled loop included)" % (k, isa, big), src="simd.rs",
-                            functions=[("simd.rs", r"\w*%s\w*" % isa)], bounds="len symbolic in 1..%d" % big, tier="thorough", timeout=3000))
+                            functions=[("simd.rs", r"\w*%s\w*" % isa)], bounds="len symbolic in 1..%d" % big, tier="thorough", timeout=3000, replay="solver-only"))
+for _h in HARNESSES:
+    pass
 FA = [("ann_backend.rs", "count_unchecked"), ("ann_backend.rs", "neighbor_unchecked"), ("ann_backend.rs", "vector_at_unchecked"), ("ann_backend.rs", "record_ptr"), ("ann_backend.rs", "set_neighbors"), ("ann_backend.rs", "push_node")]
 HARNESSES += [
     KH("O17.2/unchecked", "c17_o2_packed_level0_unchecked", "PackedLevel0 unchecked accessors stay inside `data` and agree with the checked ones, for arbitrary record words", src="ann_backend.rs", functions=FA,
-       bounds="cap,dim in 1..3; 2 nodes; all 32 data words arbitrary", timeout=900),
+       bounds="cap,dim in 1..3; 2 nodes; all 32 data words arbitrary", timeout=900, replay="solver-only"),
     KH("O17.2/push_node", "c17_o2_packed_level0_push_node", "PackedLevel0::push_node keeps data.len() == len()*record_words and stores the vector bits", src="ann_backend.rs", functions=FA,
        bounds="cap 2, dim 3 concrete; two pushes of an arbitrary vector", timeout=900),
     KH("O17.2/set_neighbors", "c17_o2_packed_level0_set_neighbors", "PackedLevel0::set_neighbors preserves the layout invariant, truncates to cap, ignores out-of-range ids", src="ann_backend.rs", functions=FA,
        bounds="cap,dim in 1..3; 2 nodes; up to 5 arbitrary neighbour ids; arbitrary target id", timeout=900),
     KH("O17.3/visited", "c17_o3_visited_bitset", "FlatSearchScratch::mark_if_unvisited_unchecked in bounds for every id < node_count after prepare()", src="ann_backend.rs",
-       functions=[("ann_backend.rs", "mark_if_unvisited_unchecked"), ("ann_backend.rs", "prepare")], bounds="node_count in 1..130", timeout=900),
+       functions=[("ann_backend.rs", "mark_if_unvisited_unchecked"), ("ann_backend.rs", "prepare")], bounds="node_count in 1..130", timeout=900, replay="solver-only"),
 ]
 MODS = {"simd.rs": "simd_proofs.rs", "ann_backend.rs": "ann_backend_proofs.rs"}
 
